@@ -86,6 +86,9 @@ func trees(thorough bool) []Tree {
 	// instance_step whose 'to' lies below 'from' (accepted by validation): 'from' tokens at the start, nothing else
 	isDown := Tree{Kind: "istep", A: 3, B: 1, C: 2, D: 500}
 	out = append(out, isDown, comp(o1, isDown), comp(isDown, c0, o1))
+	// several token-less parts in a row, each with a duration of its own
+	c07 := Tree{Kind: "const", A: 0, D: 700}
+	out = append(out, comp(o1, c0, c07, o1), comp(o0, c0, o1), comp(c0, c07, o2), comp(o1, c07, o0, c0, o1))
 	out = append(out, comp(o1, un5, o2), comp(un5, o2), comp(o1, un5), comp(comp(o1, un5), o2), comp(o2, un5, o1), comp(o1, comp(un5, o1)), comp(c0, un5, o1))
 	if thorough {
 		for _, a := range []Tree{o1, un, c0} {
